@@ -90,20 +90,28 @@ def facts(repo):
 
 
 TRUSTED = [
-    "objective scalers (sklearn FunctionTransformer / MinMaxScaler / QuantileTransformer) are strictly increasing per objective on "
-    "the told sample (hypothesis of C05_exploit_picks_max / C05_moo_*; spot-checked by stream 'scalers' with the Coq oracle ok_scaler_mono)",
-    "the forest surrogate (deephyper.skopt.learning.RandomForestRegressor, min_samples_split=2, bootstrap=False) interpolates its "
-    "training targets (hypothesis 'mu c == ...' of the exploitation theorems; exercised by stream 'e2e_exploit')",
+    "objective scalers of sklearn (FunctionTransformer / MinMaxScaler / QuantileTransformer) behave as Model.scale_col on the told sample: "
+    "checked by stream 'scalers' (values within 1e-12; quantile-uniform with repeated interior values only within the rank interval of the "
+    "tied group, np.nanpercentile rounding) and by the Coq oracle ok_scaler_mono; the MODEL scalers are proved increasing (C05_scalers_increasing)",
+    "the forest surrogate (deephyper.skopt.learning.RandomForestRegressor with min_samples_split=2, bootstrap=False, splitter='best') reproduces "
+    "its training targets on distinct inputs - the interpolation hypothesis of C05_exploit_picks_max / C05_moo_exploit; the 'random' splitter of "
+    "surrogate 'ET' does not always do so and is therefore overridden in stream 'e2e_exploit'",
     "np.dot / np.max / np.abs / np.linalg.norm(.,1) / np.mean exact on small dyadic inputs (exact streams); np.linalg.svd and "
-    "np.linalg.norm(w)**2 within 1e-9 relative (PBI / Quadratic, tolerance streams)",
-    "the harness's token tables for names (cl_min/cl_mean/cl_max -> 0/1/2, Linear.. -> 0..4, identity/minmax/quantile-uniform -> 0/1/2)",
+    "np.linalg.norm(w)**2 within 1e-9 relative (PBI / Quadratic, default AugChebyshev alpha: tolerance comparison)",
+    "scalarised values are compared up to one additive constant per history (argmin / lies / imputation / surrogate fit are equivariant)",
+    "the harness's token tables for names (cl_min/cl_mean/cl_max -> 0/1/2, Linear.. -> 0..4, identity/minmax/quantile-uniform -> 0/1/2) and "
+    "Names.v's reading of how Optimizer.ask / _filter_failures / _gaussian_acquisition interpret the strategy / policy / acquisition strings "
+    "(tied by streams 'lies', 'fit_targets', 'acquisition')",
+    "CBO.tell/ask before search(): the harness calls CBO._setup_optimizer() as CBO._search does on its first call",
     "stream 'e2e_stat' is a statistical TEST with fixed seeds (not a theorem): later proposals concentrate at the maximiser",
 ]
 ASSUMPTIONS = [
     "objective values are finite numbers (NaN/inf belong to C06)",
-    "constant-liar lies with several objectives AND a failed evaluation raise ValueError in Optimizer.ask (inhomogeneous list; "
-    "reported to the coordinator as a C06-type defect) - that combination is outside the lie streams",
+    "constant-liar lies with several objectives AND a failed evaluation raise ValueError in Optimizer.ask (inhomogeneous list), and "
+    "CBO.fit_surrogate with filter_failures='ignore' tells the failures and the surrogate fit raises on 'F' - both C06-type defects reported to "
+    "the coordinator; these combinations are outside the C05 streams",
     "moo_upper_bounds (penalty) is not modelled",
+    "Model.v describes the REPAIRED scalarize() (fixes/F07_scalarize_relative_to_utopia.patch); today's behaviour is scal_hist_today / C05_cheb_refuted",
 ]
 RULE = ("functional streams: small dyadic vectors/histories per scalarisation x scaler x sign pattern (all-positive / all-negative / mixed), "
         "exact comparison where binary64 is exact, 1e-9 relative otherwise; e2e_exploit: every configuration of a 8..16 point space told, "
@@ -980,10 +988,11 @@ def gen_e2e(count):
             case = dict(n_obj=n_obj, kind=kind, scaler=scalers[(i // 5) % 4], w=None if i % 4 == 3 else gen_weights(rng, n_obj, positive=True),
                         surrogate=sur, acq=["UCB", "UCBd"][(i // 7) % 2], path=["tell", "fit_surrogate"][(i // 11) % 2], nx=nx, nz=nz, objs=objs,
                         seed=rng.randint(0, 10 ** 6))
-            if sur == "SPY" and n_obj == 1 and i % 8 < 4:
+            if sur == "SPY" and n_obj == 1 and (i // 8) % 2 == 0:
                 case["kappa"] = rng.choice([0.5, 1.0, 2.0])
                 case["stds"] = [dy(rng, 0, 4) for _ in range(nx * nz)]
                 case["acq"] = "UCB"
+                case["scaler"] = "identity"   # the exploration bonus kappa*sigma is on the scale of the (scaled) targets
             yield case
     return gen
 
@@ -1081,14 +1090,14 @@ def gen_e2e_stat(count):
 def streams(tier):
     th = tier == "thorough"
     ss = [
-        Stream("scalarize", gen_scalarize(3000 if th else 600), check_scalarize, shrink_rows, timeout=60),
-        Stream("scalar_dominance", gen_dominance(400 if th else 60), check_scalarize, shrink_rows, timeout=60),
-        Stream("fit_targets", gen_fit_targets(2400 if th else 480), check_fit_targets, shrink_ys, timeout=60),
-        Stream("lies", gen_lies(1200 if th else 240), check_lies, shrink_ys, timeout=60),
-        Stream("cbo_tell", gen_cbo_tell(900 if th else 180), check_cbo_tell, shrink_ys, timeout=60),
-        Stream("acquisition", gen_acq(1800 if th else 360), check_acq, None, timeout=60),
-        Stream("scalers", gen_scalers(1600 if th else 320), check_scalers, shrink_rows, timeout=60),
-        Stream("e2e_exploit", gen_e2e(3600 if th else 720), check_e2e, shrink_e2e, timeout=120),
+        Stream("scalarize", gen_scalarize(3000 if th else 1500), check_scalarize, shrink_rows, timeout=60),
+        Stream("scalar_dominance", gen_dominance(400 if th else 100), check_scalarize, shrink_rows, timeout=60),
+        Stream("fit_targets", gen_fit_targets(2400 if th else 1200), check_fit_targets, shrink_ys, timeout=60),
+        Stream("lies", gen_lies(1200 if th else 480), check_lies, shrink_ys, timeout=60),
+        Stream("cbo_tell", gen_cbo_tell(900 if th else 360), check_cbo_tell, shrink_ys, timeout=60),
+        Stream("acquisition", gen_acq(1800 if th else 600), check_acq, None, timeout=60),
+        Stream("scalers", gen_scalers(1600 if th else 640), check_scalers, shrink_rows, timeout=60),
+        Stream("e2e_exploit", gen_e2e(3600 if th else 1500), check_e2e, shrink_e2e, timeout=120),
     ]
     if th:
         ss.append(Stream("e2e_stat", gen_e2e_stat(97), check_e2e_stat, None, timeout=600))
